@@ -368,7 +368,7 @@ impl<'a> JoinOutput<'a> {
                                         if is_async {
                                             let spawn_tokio_fn_name = construct_spawn_tokio_fn_name();
                                             quote! {
-                                                { #spawn_tokio_fn_name(Box::pin(#chain)) }
+                                                { #spawn_tokio_fn_name(::std::boxed::Box::pin(#chain)) }
                                             }
                                         } else {
                                             let thread_builder_name =
@@ -461,7 +461,7 @@ impl<'a> JoinOutput<'a> {
 
         let extracted_results =
             self.extract_results_tuple(&step_results_name, result_pats, None, step_number);
-        let err_to_err = quote! { Err(err) => Err(err) };
+        let err_to_err = quote! { ::std::result::Result::Err(err) => ::std::result::Result::Err(err) };
 
         if is_try && (step_number) < max_step_count - 1 {
             if transpose {
@@ -476,7 +476,7 @@ impl<'a> JoinOutput<'a> {
                         (
                             quote! { #result_var.as_ref().map(|_| true).unwrap_or(false) },
                             quote! {
-                                #index => #result_var.map(|_| unreachable!())
+                                #index => #result_var.map(|_| ::std::unreachable!())
                             },
                         )
                     })
@@ -486,10 +486,10 @@ impl<'a> JoinOutput<'a> {
                 quote! {
                     #step_stream
                     #extracted_results
-                    if let Some(__fail_index) = [#( #is_result_successful ),*].iter().position(|#value_name| !#value_name) {
+                    if let ::std::option::Option::Some(__fail_index) = [#( #is_result_successful ),*].iter().position(|#value_name| !#value_name) {
                         match __fail_index {
                             #( #result_vars_matcher ),*,
-                            _ => unreachable!()
+                            _ => ::std::unreachable!()
                         }
                     } else {
                         #next_step_stream
@@ -507,7 +507,7 @@ impl<'a> JoinOutput<'a> {
                             );
                             index += 1;
 
-                            Some(quote! { Ok(#result_var) })
+                            Some(quote! { ::std::result::Result::Ok(#result_var) })
                         } else {
                             None
                         }
@@ -524,7 +524,7 @@ impl<'a> JoinOutput<'a> {
                 quote! {
                     #step_stream
                     match #step_results_name {
-                        Ok(#step_results_name) => {
+                        ::std::result::Result::Ok(#step_results_name) => {
                             #current_step_results
                             #next_step_stream
                         },
@@ -559,7 +559,7 @@ impl<'a> JoinOutput<'a> {
 
                     quote! {
                         match #step_results_name {
-                            Ok(#step_results_name) => {
+                            ::std::result::Result::Ok(#step_results_name) => {
                                 #extracted_results
                                 #transposer
                             },
@@ -569,9 +569,9 @@ impl<'a> JoinOutput<'a> {
                 } else {
                     quote! {
                         match #step_results_name {
-                            Ok(#step_results_name) => {
+                            ::std::result::Result::Ok(#step_results_name) => {
                                 #extracted_results
-                                Ok((#(# result_vars ),*))
+                                ::std::result::Result::Ok((#(# result_vars ),*))
                             },
                             #err_to_err
                         }
@@ -581,7 +581,7 @@ impl<'a> JoinOutput<'a> {
                 let value_name = construct_internal_value_name();
                 quote! {
                     match #step_results_name {
-                        Ok(#value_name) => Ok((#value_name)),
+                        ::std::result::Result::Ok(#value_name) => ::std::result::Result::Ok((#value_name)),
                         #err_to_err
                     }
                 }
@@ -1141,10 +1141,10 @@ impl<'a> ToTokens for JoinOutput<'a> {
                         quote! {
                             fn #spawn_tokio_fn_name<T, F>(__future: F) -> impl #futures_crate_path::future::Future<Output=T>
                             where
-                                F: #futures_crate_path::future::Future<Output = T> + Send + 'static,
-                                T: Send + 'static,
+                                F: #futures_crate_path::future::Future<Output = T> + ::std::marker::Send + 'static,
+                                T: ::std::marker::Send + 'static,
                             {
-                                ::tokio::spawn(__future).map(|#value_name| #value_name.unwrap_or_else(|err| panic!("tokio JoinHandle failed: {:#?}", err)))
+                                ::tokio::spawn(__future).map(|#value_name| #value_name.unwrap_or_else(|err| ::std::panic!("tokio JoinHandle failed: {:#?}", err)))
                             }
                         }
                     )
@@ -1153,7 +1153,7 @@ impl<'a> ToTokens for JoinOutput<'a> {
                 };
 
                 quote! {
-                    Box::pin(
+                    ::std::boxed::Box::pin(
                         async move {
                             use #futures_crate_path::{FutureExt, TryFutureExt, StreamExt, TryStreamExt};
                             #async_spawn_fn_definition
@@ -1170,7 +1170,7 @@ impl<'a> ToTokens for JoinOutput<'a> {
                     let value_name = construct_internal_value_name();
 
                     quote! {
-                        fn #inspect_fn_name<I>(#handler_name: impl Fn(&I) -> (), #value_name: I) -> I {
+                        fn #inspect_fn_name<I>(#handler_name: impl ::std::ops::Fn(&I) -> (), #value_name: I) -> I {
                             #handler_name(&#value_name);
                             #value_name
                         }
@@ -1182,12 +1182,12 @@ impl<'a> ToTokens for JoinOutput<'a> {
                     Some(
                        quote! {
                             fn #construct_thread_builder_fn_name(branch_index: usize) -> ::std::thread::Builder {
-                                let thread_name = format!("join_{}", branch_index);
+                                let thread_name = ::std::format!("join_{}", branch_index);
                                 ::std::thread::Builder::new().name(
                                     ::std::thread::current().name()
                                         .map(
                                             |current_thread_name|
-                                                format!("{current_thread_name}_{new_thread_name}",
+                                                ::std::format!("{current_thread_name}_{new_thread_name}",
                                                     current_thread_name=current_thread_name,
                                                     new_thread_name=thread_name
                                                 )
